@@ -140,6 +140,44 @@ def thousand_stems(k=1100):
     return f"hairpins{k}+single-pair-H-type", pos + 7, sorted(pairs)
 
 
+def deep_nest_under_a_crossing_stem(depth):
+    """Stem X opens, then `depth` helices nested in one another open (single pairs, one unpaired nucleotide between them so
+    that each is a stem of its own), X closes INSIDE the innermost one, then the helices close: X crosses all of them and
+    `depth` + 1 regions are open at once."""
+    pairs, pos = [], 1
+    x5 = pos; pos += 2
+    opens = []
+    for _ in range(depth):
+        opens.append(pos); pos += 2
+    x3 = pos; pos += 2
+    for o in reversed(opens):
+        pairs.append((o, pos)); pos += 2
+    pairs.append((x5, x3))
+    return f"{depth}-nested-helices-under-a-crossing-stem", pos - 1, sorted(pairs)
+
+
+def fan_and_chain(fan):
+    """A 3-pair helix crossed by `fan` nested single pairs (its degree is `fan`), followed by a chain a x b x c x d of
+    crossing stems with long a, d (5 pairs) and single-pair b, c: first-come-first-served needs two levels for the
+    chain, the optimum three."""
+    pairs, pos = [], 1
+    h5 = [pos, pos + 1, pos + 2]; pos += 4
+    opens = list(range(pos, pos + 2 * fan, 2)); pos += 2 * fan + 1     # fan opening positions, spaced by one
+    h3 = [pos, pos + 1, pos + 2]; pos += 4
+    closes = list(range(pos, pos + 2 * fan, 2)); pos += 2 * fan + 1
+    pairs += list(zip(h5, reversed(h3)))
+    pairs += list(zip(opens, reversed(closes)))                          # nested among themselves, each crossing the helix
+    # chain: a opens, b opens, a closes, c opens, b closes, d opens, c closes, d closes
+    def block(L):
+        nonlocal pos
+        r = list(range(pos, pos + L)); pos += L + 1
+        return r
+    a5 = block(5); b5 = block(1); a3 = block(5); c5 = block(1); b3 = block(1); d5 = block(5); c3 = block(1); d3 = block(5)
+    for x5, x3 in ((a5, a3), (b5, b3), (c5, c3), (d5, d3)):
+        pairs += list(zip(x5, reversed(x3)))
+    return f"fan-of-{fan}-across-a-helix+chain-5-1-1-5", pos - 1, sorted(pairs)
+
+
 def many_small_knots(units, a=2, b=4, gap=1):
     """A chain of `units` H-type pseudoknots whose 5' stem (a pairs) is shorter than the stem crossing it (b pairs):
     first-come-first-served puts the long stems on level 1, the optimum puts the short ones there; 2 * units stems
